@@ -17,8 +17,8 @@ use prqlc_parser::parser::pr;
 static CURRENT_LOG: RwLock<Option<DebugLog>> = RwLock::new(None);
 
 pub fn log_start() {
-    let mut lock = CURRENT_LOG.write().unwrap();
-    assert!(lock.is_none());
+    let mut lock = CURRENT_LOG.write().unwrap_or_else(|e| e.into_inner());
+    // a log left over from a compilation that panicked is discarded (panicking here would poison the lock)
 
     let started_at: DateTime<Utc> = SystemTime::now().into();
     let started_at = format!("{}", started_at.format("%+"));
